@@ -409,16 +409,29 @@ Theorem C20_reject_unknown_order1_variable vars pre v post o2 given :
 Proof. exact (reject_unknown_order1_variable vars pre v post o2 given). Qed.
 Print Assumptions C20_reject_unknown_order1_variable.
 
-(* ------------------------------------------------------------------ 14. RF pulses *)
-Theorem C20_reject_pulse_sample_above_1 pre v post dur :
-  1 < abs2 v -> pulse_ok true 1 (pre ++ v :: post) dur = Reject ValueError.
-Proof. exact (reject_pulse_sample_above_1 pre v post dur). Qed.
+Theorem C20_reject_pulse_sample_above_1 rf alpha pre v post dur :
+  given rf alpha -> 1 < abs2 v -> pulse_ok rf alpha 1 (pre ++ v :: post) dur = Reject ValueError.
+Proof. exact (reject_pulse_sample_above_1 rf alpha pre v post dur). Qed.
 Print Assumptions C20_reject_pulse_sample_above_1.
 
-Theorem C20_accept_pulse_within_unit_disc values d :
-  (forall v, In v values -> abs2 v <= 1) -> 0 <= d -> pulse_ok true 1 values (PScalar d) = Accept.
-Proof. exact (accept_pulse_within_unit_disc values d). Qed.
+Theorem C20_reject_pulse_without_rf_and_alpha ndim values dur :
+  pulse_ok None None ndim values dur = Reject ValueError.
+Proof. exact (reject_pulse_without_rf_and_alpha ndim values dur). Qed.
+Print Assumptions C20_reject_pulse_without_rf_and_alpha.
+
+Theorem C20_accept_pulse_within_unit_disc rf alpha values d :
+  given rf alpha -> (forall v, In v values -> abs2 v <= 1) -> 0 <= d ->
+  pulse_ok rf alpha 1 values (PScalar d) = Accept.
+Proof. exact (accept_pulse_within_unit_disc rf alpha values d). Qed.
 Print Assumptions C20_accept_pulse_within_unit_disc.
+
+(* boundary: a zero flip angle or a zero amplitude, with the other one not given, and zero duration *)
+Theorem C20_accept_pulse_zero_alpha_or_rf values :
+  (forall v, In v values -> abs2 v <= 1) ->
+  pulse_ok None (Some 0) 1 values (PScalar 0) = Accept /\ pulse_ok (Some 0) None 1 values (PScalar 0) = Accept /\
+  pulse_ok (Some 0) (Some 0) 1 values (PScalar 0) = Accept.
+Proof. exact (accept_pulse_zero_alpha_or_rf values). Qed.
+Print Assumptions C20_accept_pulse_zero_alpha_or_rf.
 
 (* ------------------------------------------------------------------ allclose on complex entries *)
 Theorem C20_close_within_atol A B : A <= atol * atol -> le_sqrt_aff A B = true.
